@@ -4,7 +4,8 @@
    Statements are for EVERY table set, name tables, validator function, float oracle and byte string. *)
 From AV Require Import Base.Bytes Base.Outcome Hash.HashModel Spec.SpecOps Spec.SpecReal Spec.Versions Xml.Lexer Xml.Parser Xml.Funnel Xml.FunnelParser
   Xml.StrictValidDef Xml.StrictValid Xml.ParserExamples
-  Xml.Serializer Xml.RoundTripFile Xml.RoundTripCanon Xml.RoundTripCanonFinal Xml.StrictValidNoHoles.
+  Xml.Serializer Xml.RoundTripFile Xml.RoundTripCanon Xml.RoundTripCanonFinal Xml.StrictValidNoHoles Xml.StrictValidHoles.
+From AV Require Import Spec.SpecTypes Xml.TablesOk.
 From AV Require Import Hash.HashRealElement Hash.HashRealAttr Hash.HashRealEnum.
 Open Scope list_scope.
 
@@ -130,3 +131,52 @@ Theorem C08_value_required_refuted :
              | _ => False
              end.
 Proof. exact ParserExamples.C08_value_required_refuted. Qed.
+
+(* ---------- the known class `empty-value-never-checked`, characterised ----------
+   A character data element without a text item is never value-checked (C08_value_required_refuted).  The hole is
+   OBSERVABLE where strict checking of the empty value would have rejected it.
+   empty_rejectedb tab_en check_fn float_parse cs : bool (Xml/StrictValidHoles.v) =
+     Enum: the empty name is no enumeration item | Pattern fn: check_fn fn [] is not `true` | plain String: false
+     | UInt: true | Float: float_parse [] = None. *)
+(* [U] where empty_rejectedb says true, strict value checking does not return on the empty value *)
+Theorem C08_empty_value_rejected :
+  forall (tab_en : nametab) (check_fn : N -> list N -> res bool) (float_parse : list N -> option N)
+         (cs : cdspec) (st : pstate) (v : cdata) (st' : pstate),
+  empty_rejectedb tab_en check_fn float_parse cs = true ->
+  parse_character_data true tab_en check_fn float_parse [] cs st = Val (Ret v st') -> False.
+Proof. exact empty_rejected. Qed.
+
+(* [U] for Pattern and plain String specifications where it says false, the empty value passes as the empty string *)
+Theorem C08_empty_value_accepted :
+  forall (tab_en : nametab) (check_fn : N -> list N -> res bool) (float_parse : list N -> option N)
+         (cs : cdspec) (st : pstate),
+  empty_rejectedb tab_en check_fn float_parse cs = false -> texty cs = true ->
+  parse_character_data true tab_en check_fn float_parse [] cs st = Val (Ret (DString []) st).
+Proof. exact empty_accepted. Qed.
+
+(* [F] the sweep over the regenerated tables (Spec/SpecReal.v), the real enumeration name table and the C19 validator
+   models (check_real = the hand-written v_n and dfa_run on the real REGEX_n tables); float oracle: float_parse [] = None
+   (f64::from_str of nothing).  chars_types = every (datatype index, specification) with content mode Characters:
+     - every such datatype has a specification; there are 1525: 339 Enum, 1171 Pattern, 11 plain String, 2 UInt, 2 Float;
+     - the empty value is rejected for a datatype EXACTLY when its specification is not a plain String: the hole is
+       observable for 1514 of the 1525 types, and not for the 11 String types (indices listed);
+     - reasons: each of the 28 validators rejects the empty string (index 0 is no validator); the empty name is no
+       enumeration item;
+     - per element definition (9160): 422 Enum, 3390 Pattern, 2 UInt, 349 Float (observable: 4163), 357 plain String (not);
+     - validators with other than exactly one Characters-mode type: 8 (2), 16 (2), 24 (1145), none for 22, 27, 28. *)
+Theorem C08_empty_value_sweep :
+  chars_all_have_spec = true /\ sweep fp_none = true /\
+  (count_kind 0, count_kind 1, count_kind 2, count_kind 3, count_kind 4) = (339, 1171, 11, 2, 2)%nat /\
+  forallb (fun n => match check_real n [] with Val false => true | _ => false end) (iota 29) = false /\
+  forallb (fun n => match check_real n [] with Val false => true | _ => false end) (tl (iota 29)) = true /\
+  name_of tab_enum [] = Val None /\
+  (elem_count 0, elem_count 1, elem_count 2, elem_count 3, elem_count 4) = (422, 3390, 357, 2, 349)%nat /\
+  map fst (filter (fun p => N.eqb (kind_of (snd p)) 2) chars_types) = [3056; 3077; 3835; 4393; 4423; 4582; 4933; 4978; 4979; 5048; 5078]%N /\
+  filter (fun p => negb (Nat.eqb (snd p) 1)) (map (fun n => (n, fn_count n)) (tl (iota 29))) = [(8, 2%nat); (16, 2%nat); (22, 0%nat); (24, 1145%nat); (27, 0%nat); (28, 0%nat)]%N.
+Proof. exact sweep_real. Qed.
+
+(* what `sweep` says, unfolded for one datatype *)
+Theorem C08_empty_value_sweep_meaning :
+  forall (fp : list N -> option N) (i : N) (cs : cdspec), sweep fp = true -> In (i, cs) chars_types ->
+  (empty_rejectedb tab_enum check_real fp cs = true <-> kind_of cs <> 2%N).
+Proof. exact sweep_meaning. Qed.
